@@ -182,3 +182,43 @@ PLANS['C14'] = {
     'run': api_runner({'quick': [('basfile', 16, 8, 12)], 'thorough': [('basfile', 200, 10, 16)]},
                       mcs=[dict(name='BasisFile', cfg='MC_BasisFile.cfg', tla='MC_BasisFile.tla', timeout=900)]),
 }
+
+def files_runner(sizes):
+    def run(ctx):
+        bdir = ctx['build']('rel', ['api_drv'])
+        lits = os.path.join(ctx['rundir'], 'literals.ndjson')
+        env = dict(os.environ); env['LITS'] = lits
+        r = subprocess.run([os.path.join(ctx['verif'], 'bin', 'tlcrun'), 'genlits' + os.environ.get('VERIF_RUNTAG', ''), '1', '600', 'GEN_Literals.cfg', 'GEN_Literals.tla'], stdout=subprocess.PIPE, stderr=subprocess.STDOUT, text=True, env=env)
+        import re
+        mm = re.search(r'<<"LITERALS", (\d+)>>', r.stdout)
+        if not mm or not os.path.exists(lits):
+            raise ctx['Infra']('GEN_Literals failed: ' + r.stdout[-1500:])
+        nlits = int(mm.group(1))
+        ctx['log']('GEN: TLC enumerated %d literals of the grammar' % nlits)
+        os.environ['VERIF_LITS'] = lits
+        shards = ctx['ncpu']
+        traces = _drive(ctx, bdir, 'api_drv', [(('lits', 1, shards, 1), os.path.join(ctx['rundir'], 'lits.ndjson'))])
+        # split the literal trace into one file per 200 events so that TLC validates them in parallel
+        parts = []
+        lines = open(traces[0]).read().splitlines()
+        ev = [l for l in lines if l.startswith('{"a":"literal"') or l.startswith('{"a":"Crash"')]
+        for k in range(0, len(ev), 150):
+            pth = os.path.join(ctx['rundir'], 'litpart-%d.ndjson' % (k // 150))
+            open(pth, 'w').write('{"a":"Reset"}\n' + '\n'.join(ev[k:k + 150]) + '\n'); parts.append(pth)
+        s1 = ctx['validate_traces']('TV_Literals', parts, tag='lit')
+        ctx['log']('TV literals: %d events, %d violations, %d known' % (s1['events'], len(s1['violations']), len(s1['known'])))
+        wl = sizes[ctx['tier']]
+        jobs = [((w, ctx['seed'] * 100003 + sh * 7919 + 1, n, ln), os.path.join(ctx['rundir'], '%s-%d.ndjson' % (w, sh))) for (w, n, ln, shs) in wl for sh in range(shs)]
+        tr2 = _drive(ctx, bdir, 'api_drv', jobs)
+        s2 = ctx['validate_traces']('TV_API', tr2, tag='rt')
+        ctx['log']('TV round trips: %d events, %d violations, %d known' % (s2['events'], len(s2['violations']), len(s2['known'])))
+        nexe = ctx['count_executions'](tr2)
+        cov = {'states': s1['events'] + s2['events'] + nlits, 'transitions': s1['events'] + s2['events'] + nlits, 'traces_validated_against_impl': nexe + len(parts),
+               'samples': _samples(parts, 3) + _samples(tr2, 2), 'evaluations': s1['events'] + s2['events'], 'distinct_nontrivial': nlits + _distinct(tr2, lambda e: (e.get('a'), e.get('fmt'), e.get('mode'), json.dumps(e.get('st', {}).get('rows')) if e.get('a') == 'fileRoundTrip' else None) if e.get('a') == 'fileRoundTrip' else None),
+               'rule': 'literals: every literal of the grammar enumerated by TLC (GEN_Literals), read by ratFromString and by the LP and MPS readers in both read modes; round trips: one evaluation = one API call in a write/read-back history',
+               'literals_enumerated': nlits, 'exhaustive': True, 'known_findings_hit': len(s1['known']) + len(s2['known'])}
+        kn = sorted(set('%s: %s' % (k['id'], k['what']) for k in s1['known'] + s2['known']))
+        return {'coverage': cov, 'violations': s1['violations'] + s2['violations'], 'known': kn, 'infra': s1['infra'] + s2['infra'],
+                'assumptions': ['the literal grammar is enumerated over small digit alphabets (Literals.tla)', 'floating-point MPS values compare to 15 significant digits']}
+    return run
+PLANS['C12'] = {'level': 'model_checking', 'tv_spec': 'TV_API', 'run': files_runner({'quick': [('files', 16, 6, 12)], 'thorough': [('files', 200, 8, 16)]})}
